@@ -78,9 +78,19 @@ Qed.
    symbols are within the interpreter's int() digit limit and which has fewer than 100 ring symbols: if the decoder
    returns a string, then the documented derivation (spec/DocGrammar.v, written from docs/source/derivation.rst
    independently of decoder.py) assigns a molecule g to the same symbols, and the molecule the independent reader
-   reads from the decoder's output is g with its atoms listed in the order ord in which the writer emitted them
-   (a permutation of the atoms; neighbour lists, bond orders, cis/trans marks and ring flags carried over). *)
+   reads from the decoder's output is exactly g: atoms in derivation order with all their fields, neighbour lists in
+   written order with bond orders, cis/trans marks and ring flags. *)
 Theorem C02_decoder_refines_grammar : forall T (frs : list (list item)) attribute out maps,
+  (exists c, assoc (lit "?") T = Some c) -> frs <> [] -> Forall wfd frs ->
+  symbols_short (render_frags frs) -> (ring_symbol_count (render_frags frs) false < 100)%nat ->
+  decoder T (render_frags frs) false attribute = Ok (out, maps) ->
+  exists g, grammar_eval T (dtoks frs) = Ok g /\ read_smiles out = Some g.
+Proof. exact decoder_refines_grammar_exact. Qed.
+
+(* "atoms in derivation order": the writer visits the atoms of a decoded graph in the order in which the derivation
+   created them (proofs/Preorder.v: the emission order of every decoded graph is 0, 1, 2, ...), so the molecule read
+   from the output is g itself, not merely g up to a renumbering.  The weaker form, with the permutation explicit: *)
+Theorem C02_decoder_refines_grammar_up_to_order : forall T (frs : list (list item)) attribute out maps,
   (exists c, assoc (lit "?") T = Some c) -> frs <> [] -> Forall wfd frs ->
   symbols_short (render_frags frs) -> (ring_symbol_count (render_frags frs) false < 100)%nat ->
   decoder T (render_frags frs) false attribute = Ok (out, maps) ->
@@ -152,6 +162,7 @@ Proof. exact derive_rejects. Qed.
 Print Assumptions C02_atom_rule_partial.
 Print Assumptions C02_output_denotes_graph_partial.
 Print Assumptions C02_decoder_refines_grammar.
+Print Assumptions C02_decoder_refines_grammar_up_to_order.
 Print Assumptions C02_rejected_exactly_when.
 Print Assumptions C02_rejection_refines_grammar.
 Print Assumptions C02_rejection_is_decoder_error_partial.
